@@ -138,3 +138,33 @@ Proof.
   - intros [Hk|[r [Hl Hr]]]; [apply JsrClosure.SJ_slot; exact Hk | eapply JsrClosure.SJ_red; eassumption].
 Qed.
 Print Assumptions C01_registry_settled_unfold.
+
+(* ---------- second layer: recorded dependencies as a function of the analysis (Model/Decl.v) ----------
+   One entry per specifier text; for modules that are not declaration files the code target is
+   the resolution of the FIRST code import of the text, and STATIC WINS: the entry is dynamic
+   exactly when every code import of the text is dynamic - whatever the order of the imports. *)
+From DG Require Model.Decl Proofs.DeclProofs.
+
+Theorem C01_one_entry_per_text : forall T o ds, NoDup (map Decl.da_text (Decl.declared T o ds)).
+Proof. exact DeclProofs.declared_nodup. Qed.
+Print Assumptions C01_one_entry_per_text.
+
+Theorem C01_static_wins : forall T o ds a,
+  Decl.do_decl o = false -> In a (Decl.declared T o ds) ->
+  match DeclProofs.code_imports (Decl.da_text a) ds with
+  | [] => Decl.da_code a = Decl.DNone
+  | i :: _ => Decl.da_code a = Decl.resolve_in (Decl.rt_exec T) (Decl.ds_text i) (Decl.ds_range i) /\
+              Decl.da_dyn a = forallb Decl.ds_dyn (DeclProofs.code_imports (Decl.da_text a) ds)
+  end.
+Proof. exact DeclProofs.declared_static_wins. Qed.
+Print Assumptions C01_static_wins.
+
+(* Non-vacuity: text 1 imported dynamically first, then statically: the entry is static. *)
+Example C01_static_wins_example :
+  let d dyn rg := {| Decl.ds_text := 1; Decl.ds_kind := Decl.IkEs; Decl.ds_dyn := dyn; Decl.ds_attr := 0; Decl.ds_side := false;
+                     Decl.ds_range := rg; Decl.ds_types := None |} in
+  map (fun a => (Decl.da_text a, Decl.da_dyn a, Decl.da_code a))
+      (Decl.declared {| Decl.rt_exec := [(1, Decl.OTarget 9)]; Decl.rt_types := [(1, Decl.OTarget 9)] |}
+                     {| Decl.do_types := true; Decl.do_decl := false; Decl.do_typed := true |} [d true 5; d false 6])
+  = [(1, false, Decl.DOk 9 5)].
+Proof. vm_compute. reflexivity. Qed.
